@@ -2,6 +2,7 @@ package main
 
 import (
 	"fmt"
+	"strings"
 
 	"verifharness/fw"
 )
@@ -46,6 +47,37 @@ func printWitnesses() {
 		line := markerLine("marker", raw, x.extras, x.m)
 		fmt.Printf("%s\t%s\t%s\t%q\n", x.id, line, execOp(splitFields(line)), raw)
 	}
+	// universes (corpus/C16/universe.ops): near-identical markers with different truth values on
+	// one resolver, in one requirement list and across roots, in both orders
+	uni := func(rootsOf ...[]*M) {
+		var roots []uRoot
+		var singles []string
+		for _, ms := range rootsOf {
+			rt := uRoot{}
+			for _, m := range ms {
+				rt.reqs = append(rt.reqs, mkReq(m, m.render()))
+				singles = append(singles, markerLine("resolve", m.render(), nil, nil))
+			}
+			roots = append(roots, rt)
+		}
+		line := universeLine(roots)
+		fmt.Printf("universe-ref\t%s\n", line)
+		fmt.Printf("universe-eq-single\t%s\t%s\n", line, strings.Join(singles, "\t"))
+	}
+	pv := refEnv()["platform_version"]
+	sub := substrFirstTwoWords(pv)
+	t := leaf("platform_version", "in", sub, true)
+	f2 := leaf("platform_version", "in", strings.Replace(sub, " ", "  ", 1), true)
+	ft := leaf("platform_version", "in", strings.Replace(sub, " ", "\t", 1), true)
+	eq := leaf("platform_version", "==", pv, false)
+	eq2 := leaf("platform_version", "==", strings.Replace(pv, " ", "  ", 1), false)
+	uni([]*M{t, f2, ft})
+	uni([]*M{f2, t})
+	uni([]*M{t}, []*M{f2})
+	uni([]*M{f2}, []*M{t}, []*M{ft})
+	uni([]*M{eq, eq2}, []*M{eq2, eq})
+	uni([]*M{leaf("platform_system", "==", "Linux", false), leaf("platform_system", "==", "linux", false), leaf("platform_system", "==", "Linux", true)},
+		[]*M{leaf("os_name", "in", "posix nt", false), leaf("os_name", "in", "posix nt", true)})
 	// requirement-string seeds for the corpus (oracle dep-ref needs an AST; these are
 	// correspondence seeds taken from metadata_test.go shapes)
 	for _, s := range []string{"foo", " Foo_Bar [e1, E2] (>=1.0, <2) ; python_version >= '3.8' ", "a.b-c>=1;os_name=='a;b'", "x[", "x[a]b", ";", "name@ http://x", "a (>=1", "a ( >=1 ) ", "a()", "a[]", "  ", "\t"} {
@@ -71,4 +103,14 @@ func splitFields(line string) []string {
 		out = append(out, cur)
 	}
 	return out[1:]
+}
+
+// substrFirstTwoWords: the second and third blank-separated words of an environment value
+// (for platform_version "#1 SMP PREEMPT_DYNAMIC …": "SMP PREEMPT_DYNAMIC").
+func substrFirstTwoWords(val string) string {
+	w := strings.Split(val, " ")
+	if len(w) >= 3 {
+		return w[1] + " " + w[2]
+	}
+	return val
 }
